@@ -5,6 +5,7 @@ stops compiling and the check reports a broken obligation.
 -/
 import Pandora.Gen.GrpcStatus
 import Pandora.Model.C10
+import Pandora.Spec.C10
 
 namespace Pandora.Bridge.GrpcStatus
 open Pandora.Model.C10
@@ -29,5 +30,299 @@ theorem errnoLeafType_eq : Gen.GrpcStatus.errnoLeafType = "syscall.Errno" := rfl
 
 /-- model hypothesis `connectHook = none`: no non-test code of the repo sets `BaseGun.Connect` -/
 theorem no_connect_hook : Gen.GrpcStatus.connectHookAssignments = [] := rfl
+
+/-! ### the documented table -/
+
+/-- look a code up in table rows, with a default -/
+def lookupRows (rows : List (Nat × Nat)) (d c : Nat) : Nat :=
+  match rows.find? (fun r => r.1 == c) with
+  | some r => r.2
+  | none => d
+
+/-- the hand-written `Spec.C10.docTable` (what the executable Spec judges real samples by) IS the table of
+docs/eng/grpc-generator.md as regenerated from the markdown file, for every code -/
+theorem docTable_eq_doc (c : Nat) :
+    Spec.C10.docTable c = lookupRows Gen.GrpcStatus.docRows Gen.GrpcStatus.docDefault c := by
+  by_cases h : c < 17
+  · have hfin : ∀ c, c < 17 → Spec.C10.docTable c = lookupRows Gen.GrpcStatus.docRows Gen.GrpcStatus.docDefault c := by
+      decide
+    exact hfin c h
+  · obtain ⟨k, rfl⟩ : ∃ k, c = k + 17 := ⟨c - 17, by omega⟩
+    simp [lookupRows, Gen.GrpcStatus.docRows, Gen.GrpcStatus.docDefault, Spec.C10.docTable, List.find?]
+
+/-! ### the id counter: `Model.C10.nextID` is one atomic `Add(1)` on a `uint64` that nothing else touches -/
+
+theorem idCounterType_eq : Gen.GrpcStatus.idCounterType = "sync/atomic.Uint64" := rfl
+theorem nextIDShape_eq : Gen.GrpcStatus.nextIDShape = "return idCounter.Add(1)" := rfl
+theorem idCounterOtherUses_eq : Gen.GrpcStatus.idCounterOtherUses = [] := rfl
+
+/-! ### sample-relevant slices: the decision trees of `Model.C10` (`shootHttp`, `stepHttp`/`shootScenario`, `shootGrpc`,
+`stepGrpc`/`shootGrpcScenario`, `addTag`, `autotagChars`, `ShotPlan.toShot`) were written against exactly this code.
+A change to any statement that creates, fills or reports a sample breaks one of these lemmas. -/
+
+theorem sliceBaseShoot_eq : Gen.GrpcStatus.sliceBaseShoot = [
+  "if b.Aggregator == nil {",
+  "  zap.L().Panic(\"must bind before shoot\")",
+  "}",
+  "if b.Connect != nil {",
+  "  err := b.Connect(b.Ctx)",
+  "  if err != nil {",
+  "    return",
+  "  }",
+  "}",
+  "req, sample := ammo.Request()",
+  "if ammo.IsInvalid() {",
+  "  sample.AddTag(EmptyTag)",
+  "  sample.SetProtoCode(0)",
+  "  b.Aggregator.Report(sample)",
+  "  return",
+  "}",
+  "if b.Config.AutoTag.Enabled && (!b.Config.AutoTag.NoTagOnly || sample.Tags() == \"\") {",
+  "  sample.AddTag(autotag(b.Config.AutoTag.URIElements, req.URL))",
+  "}",
+  "if sample.Tags() == \"\" {",
+  "  sample.AddTag(EmptyTag)",
+  "}",
+  "var err error",
+  "defer func() {",
+  "  if err != nil {",
+  "    sample.SetErr(err)",
+  "  }",
+  "  b.Aggregator.Report(sample)",
+  "  err = errors.WithStack(err)",
+  "}()",
+  "if b.Config.HTTPTrace.DumpEnabled {",
+  "  requestDump, err := httputil.DumpRequest(req, true)",
+  "}",
+  "res, err = b.Client.Do(req)",
+  "if b.Config.HTTPTrace.DumpEnabled && res != nil {",
+  "  responseDump, err := httputil.DumpResponse(res, true)",
+  "}",
+  "if err != nil {",
+  "  return",
+  "}",
+  "sample.SetProtoCode(res.StatusCode)",
+  "_, err = io.Copy(ioutil.Discard, res.Body)",
+  "if err != nil {",
+  "  return",
+  "}"] := rfl
+
+theorem srcAutotag_eq : Gen.GrpcStatus.srcAutotag = [
+  "path := URL.Path",
+  "var ind int",
+  "for ; ind < len(path); ind++ { if path[ind] == '/' { if depth == 0 { break } depth-- } }",
+  "return path[:ind]"] := rfl
+
+theorem sliceScenarioShoot_eq : Gen.GrpcStatus.sliceScenarioShoot = [
+  "if g.base.Aggregator == nil {",
+  "  zap.L().Panic(\"must bind before shoot\")",
+  "}",
+  "if g.base.Connect != nil {",
+  "  err := g.base.Connect(g.base.Ctx)",
+  "  if err != nil {",
+  "    return",
+  "  }",
+  "}",
+  "err := g.shoot(ammo, templateVars)",
+  "if err != nil {",
+  "  return",
+  "}"] := rfl
+
+theorem sliceScenarioShootLoop_eq : Gen.GrpcStatus.sliceScenarioShootLoop = [
+  "for _, req := range ammo.Requests {",
+  "  tag := ammo.Name + \".\" + req.Name",
+  "  sample := netsample.Acquire(tag)",
+  "  err := g.shootStep(req, sample, ammo.Name, templateVars, requestVars, idBuilder.String())",
+  "  if err != nil {",
+  "    g.reportErr(sample, err)",
+  "    return err",
+  "  }",
+  "}",
+  "return nil"] := rfl
+
+theorem sliceScenarioShootStep_eq : Gen.GrpcStatus.sliceScenarioShootStep = [
+  "if step.Preprocessor != nil {",
+  "  preProcVars, err := step.Preprocessor.Process(templateVars)",
+  "  if err != nil {",
+  "    return fmt.Errorf(\"%s preProcessor %w\", op, err)",
+  "  }",
+  "}",
+  "if err := step.Templater.Apply(&reqParts, templateVars, ammoName, step.Name); err != nil {",
+  "  return fmt.Errorf(\"%s templater.Apply %w\", op, err)",
+  "}",
+  "req, err := g.prepareRequest(reqParts)",
+  "if err != nil {",
+  "  return fmt.Errorf(\"%s prepareRequest %w\", op, err)",
+  "}",
+  "resp, err := g.base.Client.Do(req)",
+  "if err != nil {",
+  "  return fmt.Errorf(\"%s g.Do %w\", op, err)",
+  "}",
+  "if g.base.Config.AnswLog.Enabled || g.base.DebugLog || len(processors) > 0 {",
+  "  respBodyBytes, err = io.ReadAll(resp.Body)",
+  "} else {",
+  "  _, err = io.Copy(io.Discard, resp.Body)",
+  "}",
+  "if err != nil {",
+  "  return fmt.Errorf(\"%s io.Copy %w\", op, err)",
+  "}",
+  "for _, postprocessor := range processors {",
+  "  vars, err = postprocessor.Process(resp, respBody)",
+  "  if err != nil {",
+  "    return fmt.Errorf(\"%s postprocessor.Postprocess %w\", op, err)",
+  "  }",
+  "  _, err = respBody.Seek(0, io.SeekStart)",
+  "  if err != nil {",
+  "    return fmt.Errorf(\"%s postprocessor.Postprocess %w\", op, err)",
+  "  }",
+  "}",
+  "sample.SetProtoCode(resp.StatusCode)",
+  "g.base.Aggregator.Report(sample)",
+  "return nil"] := rfl
+
+theorem sliceScenarioReportErr_eq : Gen.GrpcStatus.sliceScenarioReportErr = [
+  "if err == nil {",
+  "  return",
+  "}",
+  "sample.AddTag(EmptyTag)",
+  "sample.SetProtoCode(0)",
+  "sample.SetErr(err)",
+  "g.base.Aggregator.Report(sample)"] := rfl
+
+theorem sliceGrpcShoot_eq : Gen.GrpcStatus.sliceGrpcShoot = [
+  "g.shoot(customAmmo)"] := rfl
+
+theorem sliceGrpcShootInner_eq : Gen.GrpcStatus.sliceGrpcShootInner = [
+  "code := 0",
+  "sample := netsample.Acquire(ammo.Tag)",
+  "defer func() {",
+  "  sample.SetProtoCode(code)",
+  "  g.Aggr.Report(sample)",
+  "}()",
+  "if !ok {",
+  "  return",
+  "}",
+  "payloadJSON, err := json.Marshal(ammo.Payload)",
+  "if err != nil {",
+  "  return",
+  "}",
+  "err = message.UnmarshalJSON(payloadJSON)",
+  "if err != nil {",
+  "  code = 400",
+  "  return",
+  "}",
+  "out, grpcErr := g.Stub.InvokeRpc(ctx, &method, message)",
+  "code = ConvertGrpcStatus(grpcErr)"] := rfl
+
+theorem sliceGrpcScenarioShoot_eq : Gen.GrpcStatus.sliceGrpcScenarioShoot = [
+  "err := g.shoot(scen, templateVars)",
+  "if err != nil {",
+  "  return",
+  "}"] := rfl
+
+theorem sliceGrpcScenarioShootLoop_eq : Gen.GrpcStatus.sliceGrpcScenarioShootLoop = [
+  "for _, call := range ammo.Calls {",
+  "  tag := ammo.Name + \".\" + call.Tag",
+  "  sample := netsample.Acquire(tag)",
+  "  err := g.shootStep(&call, sample, ammo.Name, templateVars, requestVars)",
+  "  if err != nil {",
+  "    return err",
+  "  }",
+  "}",
+  "return nil"] := rfl
+
+theorem sliceGrpcScenarioShootStep_eq : Gen.GrpcStatus.sliceGrpcScenarioShootStep = [
+  "code := 0",
+  "defer func() {",
+  "  sample.SetProtoCode(code)",
+  "  g.gun.Aggr.Report(sample)",
+  "}()",
+  "for _, preProcessor := range step.Preprocessors {",
+  "  pp, err := preProcessor.Process(step, templateVars)",
+  "  if err != nil {",
+  "    return fmt.Errorf(\"%s preProcessor %w\", op, err)",
+  "  }",
+  "}",
+  "payloadJSON, err := g.templ.Apply(step.Payload, stepMetadata, templateVars, ammoName, step.Name)",
+  "if err != nil {",
+  "  return fmt.Errorf(\"%s templater.Apply %w\", op, err)",
+  "}",
+  "if !ok {",
+  "  return fmt.Errorf(\"%s invalid step.Call\", op)",
+  "}",
+  "err = message.UnmarshalJSON(payloadJSON)",
+  "if err != nil {",
+  "  code = 400",
+  "  return fmt.Errorf(\"%s invalid payload. Cant unmarshal gRPC\", op)",
+  "}",
+  "out, grpcErr := g.gun.Stub.InvokeRpc(ctx, &method, message)",
+  "code = grpcgun.ConvertGrpcStatus(grpcErr)",
+  "sample.SetProtoCode(code)",
+  "for _, postProcessor := range step.Postprocessors {",
+  "  pp, err := postProcessor.Process(out, code)",
+  "  if err != nil {",
+  "    return fmt.Errorf(\"%s postProcessor %w\", op, err)",
+  "  }",
+  "}",
+  "if out != nil {",
+  "  err = message.ConvertFrom(out)",
+  "  if err != nil {",
+  "    return fmt.Errorf(\"%s message.ConvertFrom `%s`; err: %w\", op, out.String(), err)",
+  "  }",
+  "  b, err := message.MarshalJSON()",
+  "  if err != nil {",
+  "    return fmt.Errorf(\"%s message.MarshalJSON %w\", op, err)",
+  "  }",
+  "  err = json.Unmarshal(b, &outMap)",
+  "  if err != nil {",
+  "    return fmt.Errorf(\"%s json.Unmarshal %w\", op, err)",
+  "  }",
+  "}",
+  "return nil"] := rfl
+
+theorem srcAcquire_eq : Gen.GrpcStatus.srcAcquire = [
+  "s := samplePool.Get().(*Sample)",
+  "*s = Sample{ timeStamp: time.Now(), tags: tag, }",
+  "return s"] := rfl
+
+theorem srcAddTag_eq : Gen.GrpcStatus.srcAddTag = [
+  "if s.tags == \"\" { s.tags = tag return }",
+  "s.tags += \"|\" + tag"] := rfl
+
+theorem srcSetID_eq : Gen.GrpcStatus.srcSetID = [
+  "s.id = id"] := rfl
+
+theorem srcSetProtoCode_eq : Gen.GrpcStatus.srcSetProtoCode = [
+  "s.set(keyProtoCode, code)",
+  "s.setRTT()"] := rfl
+
+theorem srcSetErr_eq : Gen.GrpcStatus.srcSetErr = [
+  "s.err = err",
+  "s.set(keyErrno, getErrno(err))",
+  "s.setRTT()"] := rfl
+
+theorem srcGunAmmoRequest_eq : Gen.GrpcStatus.srcGunAmmoRequest = [
+  "sample := netsample.Acquire(g.tag)",
+  "sample.SetID(g.id)",
+  "return g.req, sample"] := rfl
+
+theorem srcNewGunAmmo_eq : Gen.GrpcStatus.srcNewGunAmmo = [
+  "return GunAmmo{ req: req, id: id, tag: tag, }"] := rfl
+
+theorem sliceHTTPProviderAcquire_eq : Gen.GrpcStatus.sliceHTTPProviderAcquire = [
+  "if !ok {",
+  "  return nil, false",
+  "}",
+  "req, err := ammo.BuildRequest()",
+  "if err != nil {",
+  "  return ammo, false",
+  "}",
+  "for _, mw := range p.Middlewares {",
+  "  err := mw.UpdateRequest(req)",
+  "  if err != nil {",
+  "    return ammo, false",
+  "  }",
+  "}",
+  "return httpProvider.NewGunAmmo(req, ammo.Tag(), p.NextID()), ok"] := rfl
 
 end Pandora.Bridge.GrpcStatus
